@@ -200,7 +200,10 @@ def rule_args(ctx):
             okp = a[0] == ("param", 1)
             # addr = src + offset with offset a counter: init 0, += 8 once per iteration
             okc = False
-            if addr[0] == "bin" and addr[1] == "Add" and core(addr[2]) == ("param", 2):
+            offv = core(addr[3]) if addr[0] == "bin" else ("?",)
+            uses_counter = offv[0] == "phi" and any(is_const(core(x)) and core(x)[1] == 0 for x in offv[1]) and any(
+                core(x)[0] == "bin" and core(x)[1] == "Add" and is_const(core(core(x)[3])) and core(core(x)[3])[1] == W for x in offv[1])
+            if addr[0] == "bin" and addr[1] == "Add" and core(addr[2]) == ("param", 2) and uses_counter:
                 off_locals = [i for i, l in enumerate(b.locals) if l.get("name") == "offset"]
                 if off_locals:
                     L = off_locals[0]
